@@ -3,6 +3,8 @@ package main
 
 import (
 	"fmt"
+	"io"
+	"log"
 	"os"
 
 	"verif/harness/engines"
@@ -13,6 +15,7 @@ func main() {
 		fmt.Println("usage: vh <engine> [flags]")
 		os.Exit(2)
 	}
+	log.SetOutput(io.Discard) // the library logs every closed connection
 	f, ok := engines.Registry[os.Args[1]]
 	if !ok {
 		fmt.Println("unknown engine", os.Args[1])
